@@ -544,7 +544,15 @@ fn param(p: &mut Parser) {
 }
 fn params_desc(p: &mut Parser) -> CompletedMarker {
 	let m = p.start();
-	p.bump_assert(T!['(']);
+	if !p.at(T!['(']) {
+		// `function` not followed by a parameter list: report it instead of asserting
+		{
+			let _e = p.expected_syntax_name("function parameters");
+			p.error_with_no_skip();
+		}
+		return m.complete(p, PARAMS_DESC);
+	}
+	p.bump();
 
 	loop {
 		if p.at(T![')']) {
